@@ -74,7 +74,31 @@ def e2e(seed=0, trials=3000):
     return 0
 
 
+def fp_case(path):
+    """replay of a bounded-float obligation: the recorded case on the real module"""
+    import json
+    sys.path.insert(0, "/verif")
+    from contracts import brents_fp as B
+    rec = json.load(open(path))
+    case = rec.get("counter_model") or {}
+    import emu_base.math.brents_root_finding as M
+    ns = {"BrentsRootFinder": M.BrentsRootFinder, "find_root_brents": M.find_root_brents}
+    fn = dict(B.shapes())[case["shape"]]
+    f = lambda x: case["sign"] * case["scale"] * fn(x)
+    res = B.run_one(ns, f, case["tolerance"], case["epsilon"], bool(case.get("one_at_a_time")))
+    bad = {k: v[1] for k, v in res.items() if not v[0]}
+    if bad:
+        print(f"REPRODUCED: {case['shape']} function scaled by {case['sign'] * case['scale']:g} on [{B.LO}, {B.HI}], "
+              f"tolerance {case['tolerance']}, epsilon {case['epsilon']}, "
+              f"{'one ordinate at a time' if case.get('one_at_a_time') else 'find_root_brents'}: {bad}")
+        return 1
+    print("NOT-REPRODUCED: the recorded floating-point case behaves on the real module")
+    return 0
+
+
 if __name__ == "__main__":
+    if len(sys.argv) > 1 and os.path.exists(sys.argv[1]) and "/fp/" in open(sys.argv[1]).read(4000):
+        sys.exit(fp_case(sys.argv[1]))
     p = subprocess.run([sys.executable, os.path.join(HERE, "generic.py")] + sys.argv[1:],
                        capture_output=True, text=True)
     print(p.stdout, end="")
